@@ -111,6 +111,10 @@ func (t *Tools) LookPath(name string) (string, bool) {
 	if (b != "shellcheck" && b != "pyflakes") || t.Missing[b] {
 		return "", false
 	}
+	if strings.Contains(name, "/") {
+		// a path (absolute, or relative to the working directory) is used as it is, like exec.LookPath does
+		return name, true
+	}
 	return "/usr/bin/" + b, true
 }
 
